@@ -196,8 +196,8 @@ def generate(rng, tier, cls):
 
     if cls == 'read_error':
         faults.append({'kind': rng.choice(['read_error', 'read_error',
-                                           'seek_error']), 'reader': 'D2',
-                       'call': rng.below(12)})
+                                           'seek_error', 'nonseekable']),
+                       'reader': 'D2', 'call': rng.below(12)})
 
     sched = []
 
@@ -280,7 +280,8 @@ def execute(scn, L):
                     out.violate('C08.record-type', 'reader', None)
         elif a.kind == 'dom_load' and a.end is not None:
             via = a.spec.get('via')
-            injected = any(f['kind'] in ('read_error', 'seek_error') and
+            injected = any(f['kind'] in ('read_error', 'seek_error',
+                                         'nonseekable') and
                            f.get('reader') == a.id
                            for f in scn.get('faults', ()))
 
@@ -288,7 +289,8 @@ def execute(scn, L):
                 out.violate('C08.no-termination', 'dom:' + a.end, None)
             elif a.end == 'raise':
                 ei = a.exc_info
-                ok = ei['family'] or (injected and ei['type'] == 'OSError')
+                ok = ei['family'] or (injected and ei['type'] in (
+                    'OSError', 'UnsupportedOperation'))
 
                 if not ok:
                     out.violate('C08.dom-other-exception', '%s:%s' % (
@@ -313,6 +315,7 @@ def execute(scn, L):
                                                  else 'success'))
 
                 if injected and (w.faults.get('read_error') or
+                                 w.faults.get('nonseekable_stream') or
                                  w.faults.get('seek_error')):
                     out.probe('io_error_fired')
 
